@@ -30,7 +30,7 @@ CLAIMS = {
                 'filters `[?(!@ inner)]` (NegFilt.v) keep the members from which inner reaches nothing; filters over a query in disjunctive form '
                 '`[?(b&&b||b&&b...)]` (QueryParse.v, QueryAddr.v, LitParse.v; every b an existence test, its negation, a number comparison or == / != against a plain string, boolean or null literal; no blanks) keep the members for which some conjunction '
                 'has all its basic queries true; a basic query may also look at the document (RootOp.v): `$ steps`, `!$ steps` and `@ inner OP $ steps` (orderings; == and != by deep equality, with the both-absent rule when the `$` path reaches nothing — the one verdict that depends on all the members offered together), true for every member / compared with what the `$` path reaches. '
-                'A comparison, existence or negated existence step may be written with blanks after `?(`, around the operator, after `!` and before `)` (CmpSpace.v, FiltSpace.v; FCS, FES: `[?( @.a >= 2 )]`, `[?( ! @.a )]`). A query in disjunctive form made of existence tests, negations and comparisons with numbers may be written with blanks after `?(`, `!`, around operators, after every basic query and after every `&&` and `||` (QuerySpace.v; FQS: `[?( @.a>1 &&  @.b || ! @.c )]` selects as the unspaced query does). String literals may contain the grammar's escapes and stray backslashes (LitParse.v sbody_ok: the value is the unescaped text). A comparison with a literal may have the literal on the left (LitLeft.v; BCL: `2<=@.a` selects as `@.a>=2`; BLL: `'x'==@.a`, `null!=@.a`). Sub-queries may be parenthesised (QueryTree.v; FT: `[?((@.a||@.b)&&!@.c)]` — any tree of `&&`, `||` and parentheses over the basic queries, written without blanks). A filter may follow `..` (FR: applied to every container below and including the value, in pre-order). Regular-expression tests `@ inner=~/body/` (RegexOp.v; body without `/`, a backslash not before `/` or `\\`) keep the members whose value is a string the expression matches (regexp, a parameter of the model). Not a theorem for the other step kinds (`$` paths as left operands, negated comparisons, blanks in the other filter forms, multi-name selectors, scripts): which AST a given text denotes (parser model vs '
+                'A comparison, existence or negated existence step may be written with blanks after `?(`, around the operator, after `!` and before `)` (CmpSpace.v, FiltSpace.v; FCS, FES: `[?( @.a >= 2 )]`, `[?( ! @.a )]`). A query in disjunctive form made of existence tests, negations and comparisons with numbers may be written with blanks after `?(`, `!`, around operators, after every basic query and after every `&&` and `||` (QuerySpace.v; FQS: `[?( @.a>1 &&  @.b || ! @.c )]` selects as the unspaced query does). String literals may contain the grammar's escapes and stray backslashes (LitParse.v sbody_ok: the value is the unescaped text). A comparison with a literal may have the literal on the left (LitLeft.v; BCL: `2<=@.a` selects as `@.a>=2`; BLL: `'x'==@.a`, `null!=@.a`; BRL: `$.min<@.a`, `$.x==@.a`). Sub-queries may be parenthesised (QueryTree.v; FT: `[?((@.a||@.b)&&!@.c)]` — any tree of `&&`, `||` and parentheses over the basic queries, written without blanks). A filter may follow `..` (FR: applied to every container below and including the value, in pre-order). Regular-expression tests `@ inner=~/body/` (RegexOp.v; body without `/`, a backslash not before `/` or `\\`) keep the members whose value is a string the expression matches (regexp, a parameter of the model). Not a theorem for the other step kinds (negated comparisons, blanks in the other filter forms, multi-name selectors, scripts): which AST a given text denotes (parser model vs '
                 'real parser by tree dumps and through the API). Correspondence: generated paths x documents; the extracted '
                 'specification runs next to the model on every case (a model/spec difference is reported).',
         'note': NOTE_COMMON + EVAL_HYP + ' The specification states the library conventions explicitly (whole-match $ operands, both-absent rule of path == path).',
